@@ -154,3 +154,271 @@ example : nameDec [65, 35, 52, 50, 35, 50, 102] = some [65, 66, 47] := by
   rw [name_window_decoder_eq]; simp [nameDecSpec, isHexDigit, isDigit, hexVal]
 example : nameDec [35, 48, 48] = none := by
   rw [name_window_decoder_eq]; simp [nameDecSpec, isHexDigit, isDigit, hexVal]
+
+/-! ## numbers -/
+
+/-- value of a digit string continuing from `acc` -/
+def digitsVal (ds : Bytes) (acc : Nat) : Nat := ds.foldl (fun a c => a * 10 + (c.toNat - 48)) acc
+
+theorem digitsVal_ge (ds : Bytes) (acc : Nat) : acc ≤ digitsVal ds acc := by
+  induction ds generalizing acc with
+  | nil => exact Nat.le_refl _
+  | cons c t ih =>
+    simp only [digitsVal, List.foldl_cons]
+    have := ih (acc * 10 + (c.toNat - 48))
+    simp only [digitsVal] at this
+    omega
+
+/-- the checked accumulation succeeds exactly when the value fits -/
+theorem accDigits_eq (limit : Nat) (ds : Bytes) (acc : Nat) (h : digitsVal ds acc ≤ limit) :
+    accDigits limit ds acc = some (digitsVal ds acc) := by
+  induction ds generalizing acc with
+  | nil => rfl
+  | cons c t ih =>
+    simp only [digitsVal, List.foldl_cons] at h
+    have hge := digitsVal_ge t (acc * 10 + (c.toNat - 48))
+    simp only [digitsVal] at hge
+    unfold accDigits
+    have h1 : ¬ (acc * 10 > limit) := by omega
+    have h2 : ¬ (acc * 10 + (c.toNat - 48) > limit) := by omega
+    simp only [h1, h2, if_false]
+    exact ih _ h
+
+theorem accDigits_overflow (limit : Nat) (ds : Bytes) (acc : Nat) (ha : acc ≤ limit)
+    (h : limit < digitsVal ds acc) : accDigits limit ds acc = none := by
+  induction ds generalizing acc with
+  | nil => simp [digitsVal] at h; omega
+  | cons c t ih =>
+    simp only [digitsVal, List.foldl_cons] at h
+    unfold accDigits
+    split
+    · rfl
+    · split
+      · rfl
+      · exact ih _ (by omega) h
+
+/-- a run of allowed bytes between a prefix and a context that starts with a disallowed byte -/
+theorem allowed_append (f : UInt8 → Bool) (pre ds ctx : Bytes) (hds : ∀ y ∈ ds, f y = true)
+    (hctx : ∀ y, ctx.head? = some y → f y = false) :
+    allowed f (pre ++ ds ++ ctx) pre.length = (ds, pre.length + ds.length) := by
+  unfold allowed
+  have hd : List.drop pre.length (pre ++ ds ++ ctx) = ds ++ ctx := by
+    rw [List.append_assoc, List.drop_left]
+  rw [hd]
+  have : List.takeWhile f (ds ++ ctx) = ds := by
+    rw [List.takeWhile_append_of_pos hds]
+    cases ctx with
+    | nil => simp
+    | cons y t => simp [List.takeWhile_cons, hctx y rfl]
+  rw [this]
+
+theorem peek_append (pre rest : Bytes) : peek (pre ++ rest) pre.length = rest.head? := by
+  unfold peek
+  cases rest with
+  | nil => simp
+  | cons a t => simp
+
+/-- the three legal sign prefixes -/
+inductive Sign where | none | plus | minus
+deriving DecidableEq, Repr
+
+def Sign.bytes : Sign → Bytes | .none => [] | .plus => [43] | .minus => [45]
+def Sign.apply (sg : Sign) (n : Nat) : Int := match sg with | .minus => -(n : Int) | _ => (n : Int)
+
+theorem signPrefix_spec (sg : Sign) (rest : Bytes) (h : ∀ y, rest.head? = some y → y ≠ 45 ∧ y ≠ 43) :
+    signPrefix (sg.bytes ++ rest) 0 = (decide (sg = .minus), sg.bytes.length) := by
+  cases sg with
+  | none =>
+    simp only [Sign.bytes, List.nil_append, signPrefix, peek]
+    cases rest with
+    | nil => simp
+    | cons y t =>
+      have := h y rfl
+      simp [this.1, this.2]
+  | plus => simp [Sign.bytes, signPrefix, peek]
+  | minus => simp [Sign.bytes, signPrefix, peek]
+
+/-- **`integer_spec`**: `IntegerP` on sign ++ digits ++ context, for every digit string (so every
+    number of leading zeros), every sign and every context that does not continue the digits:
+    the value is the signed decimal value when it fits an `i64`, a guard error otherwise, and the
+    cursor is exactly after the last digit / unmoved. -/
+theorem integer_spec (sg : Sign) (ds ctx : Bytes) (hne : ds ≠ []) (hds : ∀ y ∈ ds, isDigit y = true)
+    (hctx : ∀ y, ctx.head? = some y → isDigit y = false) :
+    integerP (sg.bytes ++ ds ++ ctx) 0 =
+      if digitsVal ds 0 ≤ i64Max then
+        (.ok ⟨sg.apply (digitsVal ds 0), 0, sg.bytes.length + ds.length⟩, sg.bytes.length + ds.length)
+      else (.err .guard, 0) := by
+  unfold integerP
+  have hs : signPrefix (sg.bytes ++ ds ++ ctx) 0 = (decide (sg = .minus), sg.bytes.length) := by
+    rw [List.append_assoc]
+    apply signPrefix_spec
+    intro y hy
+    cases ds with
+    | nil => exact absurd rfl hne
+    | cons d t =>
+      simp only [List.cons_append, List.head?_cons, Option.some.injEq] at hy
+      subst hy
+      have := hds d (List.mem_cons_self)
+      simp only [isDigit, Bool.and_eq_true, decide_eq_true_eq] at this
+      constructor
+      · intro h; subst h; exact absurd this.1 (by decide)
+      · intro h; subst h; exact absurd this.1 (by decide)
+  rw [hs]
+  simp only
+  rw [allowed_append isDigit sg.bytes ds ctx hds hctx]
+  simp only
+  have hemp : ds.isEmpty = false := by cases ds <;> simp_all
+  simp only [hemp, Bool.false_and, Bool.false_eq_true, if_false]
+  by_cases hfit : digitsVal ds 0 ≤ i64Max
+  · rw [accDigits_eq _ _ _ hfit]
+    simp only [hfit, if_true]
+    cases sg <;> simp [Sign.apply]
+  · rw [accDigits_overflow _ _ _ (Nat.zero_le _) (by omega)]
+    simp [hfit]
+
+example : integerP [43, 48, 48, 49, 55, 93] 0 = (.ok ⟨17, 0, 5⟩, 5) := by decide
+
+theorem digitsVal_append (a b : Bytes) (acc : Nat) : digitsVal (a ++ b) acc = digitsVal b (digitsVal a acc) := by
+  simp [digitsVal, List.foldl_append]
+
+theorem digitsVal_zeros (k acc : Nat) (h : acc = 0) : digitsVal (zeros k) acc = 0 := by
+  subst h
+  induction k with
+  | zero => rfl
+  | succ k ih =>
+    simp only [zeros, List.replicate_succ, digitsVal, List.foldl_cons] at ih ⊢
+    exact ih
+
+theorem digit_ofNat (d : Nat) (h : d < 10) :
+    isDigit (UInt8.ofNat (48 + d)) = true ∧ (UInt8.ofNat (48 + d)).toNat - 48 = d := by
+  have : ∀ d : Fin 10, isDigit (UInt8.ofNat (48 + d.val)) = true ∧ (UInt8.ofNat (48 + d.val)).toNat - 48 = d.val := by
+    decide
+  exact this ⟨d, h⟩
+
+/-- the decimal digits produced by the spec-side encoder denote the number and are digits -/
+theorem decDigits_spec (f n : Nat) (h : n < 10 ^ f) :
+    digitsVal (decDigits f n) 0 = n ∧ (∀ y ∈ decDigits f n, isDigit y = true) ∧ decDigits f n ≠ [] := by
+  induction f generalizing n with
+  | zero =>
+    have : n = 0 := by simp at h; exact h
+    subst this
+    refine ⟨rfl, ?_, by simp [decDigits]⟩
+    intro y hy; simp [decDigits] at hy; subst hy; decide
+  | succ f ih =>
+    unfold decDigits
+    split
+    · rename_i hlt
+      have := digit_ofNat n hlt
+      refine ⟨?_, ?_, by simp⟩
+      · simp only [digitsVal, List.foldl_cons, List.foldl_nil, this.2]; omega
+      · intro y hy; simp only [List.mem_singleton] at hy; subst hy; exact this.1
+    · rename_i hge
+      have hq : n / 10 < 10 ^ f := by
+        rw [Nat.pow_succ] at h
+        exact Nat.div_lt_of_lt_mul (by omega)
+      obtain ⟨h1, h2, h3⟩ := ih (n / 10) hq
+      have hd := digit_ofNat (n % 10) (Nat.mod_lt _ (by decide))
+      refine ⟨?_, ?_, by simp⟩
+      · rw [digitsVal_append, h1]
+        simp only [digitsVal, List.foldl_cons, List.foldl_nil, hd.2]
+        omega
+      · intro y hy
+        simp only [List.mem_append, List.mem_singleton] at hy
+        rcases hy with hy | hy
+        · exact h2 y hy
+        · subst hy; exact hd.1
+
+theorem signOf_spec (neg : Bool) (c : Ch) :
+    ∃ sg : Sign, (signOf neg c).1 = sg.bytes ∧ (neg = true → sg = .minus) ∧ (neg = false → sg ≠ .minus) := by
+  unfold signOf
+  cases neg with
+  | true => exact ⟨.minus, rfl, fun _ => rfl, fun h => by cases h⟩
+  | false =>
+    simp only [Bool.false_eq_true, if_false]
+    split
+    · exact ⟨.plus, rfl, by simp, by simp⟩
+    · exact ⟨.none, rfl, by simp, by simp⟩
+
+/-- **`integer_roundtrip`**: every spelling the encoder produces for an integer in the i64 range
+    (sign choice, any number of leading zeros), followed by any context that does not continue the
+    digits, is parsed by `IntegerP` to exactly that integer with the cursor after the last digit. -/
+theorem integer_roundtrip (n : Int) (c : Ch) (ctx : Bytes)
+    (hn : n.natAbs ≤ i64Max) (hctx : ∀ y, ctx.head? = some y → isDigit y = false) :
+    integerP ((spellInt n c).1 ++ ctx) 0 =
+      (.ok ⟨n, 0, (spellInt n c).1.length⟩, (spellInt n c).1.length) := by
+  have hlt : n.natAbs < 10 ^ 64 := by
+    have : i64Max < 10 ^ 64 := by decide
+    omega
+  obtain ⟨hv, hd, hne⟩ := decDigits_spec 64 n.natAbs hlt
+  -- the encoder's output is sign ++ (zeros ++ digits)
+  have hshape : ∃ (sg : Sign) (z : Nat), (spellInt n c).1 = sg.bytes ++ (zeros z ++ natDigits n.natAbs) ∧
+      sg.apply n.natAbs = n := by
+    obtain ⟨sg, hsb, h1, h2⟩ := signOf_spec (decide (n < 0)) c
+    refine ⟨sg, (pick (signOf (decide (n < 0)) c).2 3).1, ?_, ?_⟩
+    · have : (spellInt n c).1 = (signOf (decide (n < 0)) c).1 ++
+          zeros (pick (signOf (decide (n < 0)) c).2 3).1 ++ natDigits n.natAbs := rfl
+      rw [this, hsb, List.append_assoc]
+    · by_cases hneg : n < 0
+      · have := h1 (by simp [hneg]); subst this; simp only [Sign.apply]; omega
+      · have := h2 (by simp [hneg])
+        cases sg with
+        | minus => exact absurd rfl this
+        | none => simp only [Sign.apply]; omega
+        | plus => simp only [Sign.apply]; omega
+  obtain ⟨sg, z, hs, hsg⟩ := hshape
+  have hds : ∀ y ∈ zeros z ++ natDigits n.natAbs, isDigit y = true := by
+    intro y hy
+    simp only [List.mem_append] at hy
+    rcases hy with hy | hy
+    · simp [zeros] at hy; rw [hy.2]; decide
+    · exact hd y hy
+  have hval : digitsVal (zeros z ++ natDigits n.natAbs) 0 = n.natAbs := by
+    rw [digitsVal_append, digitsVal_zeros z 0 rfl]; exact hv
+  have hne' : zeros z ++ natDigits n.natAbs ≠ [] := by simp [natDigits, hne]
+  have := integer_spec sg (zeros z ++ natDigits n.natAbs) ctx hne' hds hctx
+  rw [hs, this, hval]
+  simp only [hn, if_true, hsg, List.length_append]
+
+example : (spellInt (-42) [2]).1 = [45, 48, 48, 52, 50] := by decide
+
+/-! ## hexadecimal strings -/
+
+/-- the digits of a hex-string body: whitespace removed, a final odd digit padded with '0' -/
+def hexDigitsOf (body : Bytes) : Bytes :=
+  let hx := body.filter (fun b => !isHexWs b)
+  if hx.length % 2 != 0 then hx ++ [48] else hx
+
+/-- **`hexstring_spec`**: for every body made of hex digits and whitespace, in every context,
+    `HexString` returns the bytes denoted by the digits (odd count padded with 0) and the cursor
+    is just after the closing `>`. -/
+theorem hexstring_spec (body ctx : Bytes) (hb : ∀ y ∈ body, (isHexDigit y || isHexWs y) = true) :
+    hexString ([60] ++ body ++ [62] ++ ctx) 0 =
+      (.ok ⟨hexPairs (hexDigitsOf body), 0, body.length + 2⟩, body.length + 2) := by
+  unfold hexString
+  have hp : peek ([60] ++ body ++ [62] ++ ctx) 0 = some 60 := rfl
+  simp only [hp, bne_self_eq_false, Bool.false_eq_true, if_false]
+  have ha : allowed (fun b => isHexDigit b || isHexWs b) ([60] ++ body ++ [62] ++ ctx) (0 + 1) = (body, 1 + body.length) := by
+    have := allowed_append (fun b => isHexDigit b || isHexWs b) [60] body ([62] ++ ctx) hb
+      (by intro y hy; simp at hy; subst hy; decide)
+    simpa [List.append_assoc] using this
+  rw [ha]
+  simp only
+  have hp2 : peek ([60] ++ body ++ [62] ++ ctx) (1 + body.length) = some 62 := by
+    have := peek_append ([60] ++ body) ([62] ++ ctx)
+    simp only [List.length_append, List.length_cons, List.length_nil] at this
+    rw [← List.append_assoc] at this
+    simpa [Nat.add_comm] using this
+  simp only [hp2, bne_self_eq_false, Bool.false_eq_true, if_false, hexDigitsOf]
+  have : 1 + body.length + 1 = body.length + 2 := by omega
+  rw [this]
+
+theorem wsOpt'_ws (c : Ch) : ∀ y ∈ (hexBody.wsOpt' c).1, isHexWs y = true := by
+  intro y hy
+  unfold hexBody.wsOpt' at hy
+  simp only at hy
+  split at hy <;> simp only [List.mem_cons, List.mem_nil_iff, or_false, List.not_mem_nil] at hy
+  all_goals first
+    | (subst hy; decide)
+    | (rcases hy with h | h <;> subst h <;> decide)
+    | (rcases hy with h | h | h <;> subst h <;> decide)
+    | exact hy.elim
